@@ -656,14 +656,20 @@ impl SlabRouter {
                     );
                 }
             },
-            WalEntry::EmbeddingDelete { entity_id } => {
-                self.embeddings.delete(*entity_id);
+            WalEntry::EmbeddingDelete { .. } => {
+                // Entity ids are assigned again during replay and may differ
+                // from the ids of the session that wrote the log, so the id
+                // in this record may now belong to another key. The
+                // `EntityRemove` record that follows it names the key.
             },
             WalEntry::EntityCreate { key, .. } => {
                 // Re-establish key -> entity_id mapping (ID may differ from original)
                 let _ = self.index.get_or_create(key);
             },
             WalEntry::EntityRemove { key } => {
+                if let Some(entity_id) = self.index.get(key) {
+                    self.embeddings.delete(entity_id);
+                }
                 self.index.remove(key);
             },
             // Transaction markers are handled by WalRecovery
